@@ -32,11 +32,11 @@ NSARG = {'xs': 'http://www.w3.org/2001/XMLSchema', 'xsi': XSI}
 
 SAMPLES = {
     'string': [' a  b ', ''], 'normalizedString': ['a  b'], 'token': ['a b'], 'language': ['en-US'], 'NMTOKEN': ['a.b'], 'Name': ['a:b'], 'NCName': ['ab'], 'ID': ['id1'],
-    'IDREF': ['id1'], 'ENTITY': None, 'boolean': ['true', '0'], 'decimal': ['1.50', '-0.0'], 'integer': ['42', '-7'], 'nonPositiveInteger': ['0', '-3'],
+    'IDREF': ['id1'], 'ENTITY': None, 'boolean': ['true', '0', ' true ', '\n 1\t'], 'decimal': ['1.50', '-0.0', ' 2.5 '], 'integer': ['42', '-7', ' 8\n'], 'nonPositiveInteger': ['0', '-3'],
     'negativeInteger': ['-3'], 'long': ['9223372036854775807'], 'int': ['-2147483648'], 'short': ['7'], 'byte': ['-128'], 'nonNegativeInteger': ['0', '12'],
     'positiveInteger': ['5'], 'unsignedLong': ['18446744073709551615'], 'unsignedInt': ['4294967295'], 'unsignedShort': ['65535'], 'unsignedByte': ['255'],
-    'float': ['1.5', 'INF', 'NaN'], 'double': ['-1.5e3', '0'], 'duration': ['P1Y2M3DT4H'], 'dateTime': ['2000-02-29T12:00:00Z', '1999-12-31T24:00:00'],
-    'time': ['13:14:15+01:00'], 'date': ['2000-02-29', '1999-01-01Z'], 'gYearMonth': ['2000-02'], 'gYear': ['2000'], 'gMonthDay': ['--02-29'], 'gDay': ['---31'],
+    'float': ['1.5', 'INF', 'NaN'], 'double': ['-1.5e3', '0', ' 1e1 '], 'duration': ['P1Y2M3DT4H'], 'dateTime': ['2000-02-29T12:00:00Z', '1999-12-31T24:00:00'],
+    'time': ['13:14:15+01:00'], 'date': ['2000-02-29', '1999-01-01Z', ' 2001-01-01 '], 'gYearMonth': ['2000-02'], 'gYear': ['2000'], 'gMonthDay': ['--02-29'], 'gDay': ['---31'],
     'gMonth': ['--12'], 'hexBinary': ['0a1B'], 'base64Binary': ['YWJj'], 'anyURI': ['http://a/b'], 'QName': ['xs:string'],
 }
 DERIVED = {          # name -> (base, facet xml, valid samples)
